@@ -139,9 +139,20 @@ class TraceCorr:
         if drv is None:
             return None
         with open(trace_path) as fin, open(out_path, "w") as fout:
-            subprocess.run([drv, mode, self.area], stdin=fin, stdout=fout, stderr=subprocess.PIPE, text=True,
-                           timeout=self.timeout)
-        return core.first_bad(out_path)
+            p = subprocess.run([drv, mode, self.area], stdin=fin, stdout=fout, stderr=subprocess.PIPE, text=True,
+                               timeout=self.timeout)
+        bad = core.first_bad(out_path)
+        if bad is None:
+            # every trace line must have received a verdict: a driver that stopped early (crash, unknown area)
+            # must not silently accept the rest of the trace
+            nt = sum(1 for _ in open(trace_path))
+            nv = sum(1 for _ in open(out_path))
+            if nv < nt:
+                with open(out_path, "a") as fout:
+                    fout.write("bad the Lean driver stopped after %d of %d lines (exit %s): %s\n"
+                               % (nv, nt, p.returncode, (p.stderr or "").strip()[-300:]))
+                return nv, "bad the Lean driver stopped after %d of %d lines" % (nv, nt)
+        return bad
 
     def _still_fails(self, mode):
         def f(ops):
@@ -209,6 +220,19 @@ class TraceCorr:
         cov.setdefault("samples", [])
         cov["samples"] += trace_lines[:6] + trace_lines[n // 2:n // 2 + 3]
 
+        # coverage guard: harnesses stop or skip scenarios after hangs and report hung/inconclusive cases with
+        # tokens the drivers accept ("skipped", "hang", "inconclusive"). On a healthy tree these are (nearly) absent;
+        # if they dominate the trace, an OK verdict would carry no evidence, so that is reported.
+        def _tok(l):
+            return (" => " in l) and l.split(" => ", 1)[1].split(" ")[0] or ""
+        soft = [l for l in trace_lines if _tok(l) in ("skipped", "hang", "inconclusive") or " hang=1" in l or "=> hang" in l]
+        cov.setdefault("inconclusive_lines", 0)
+        cov["inconclusive_lines"] += len(soft)
+        if n >= 10 and len(soft) > max(5, n // 5):
+            res.obligation(cname + " (coverage)", False, inconclusive_lines=len(soft), lines=n)
+            res.violation("%d of %d scenarios of this run were skipped / hung / inconclusive: the implementation hangs so often "
+                          "that the run carries no evidence (first such line: %s)" % (len(soft), n, soft[0][:200]),
+                          {"broken": cname + " coverage", "first_inconclusive": soft[:5], "seed": res.seed}, concrete=False)
         verdict_m = os.path.join(self.dir, "verdict.model")
         if self.work.blackbox or self.spec_only:
             bad_m = ("skip", "")
